@@ -15,6 +15,7 @@ TABLE = [
  ("regress/C11/dead-connection-registered-4fdf982.json", "4fdf982"),
  ("regress/C05/dead-connection-registered-4fdf982.json", "4fdf982"),
  ("regress/C10/cancel-in-init-phase-7f3aedc.json", "7f3aedc"),
+ ("regress/C10/own-dial-in-flight-during-cancel.json", "1816325"),
  ("regress/C11/setup-after-end-3436f10.json", "3436f10"),
  ("regress/C18/cancel-on-completed-connection.json", "7123785"),
  ("regress/C01/hello-ok-after-unregister-511ee29.json", "511ee29"),
